@@ -236,11 +236,37 @@ func (p *cPatch) legal(excluded [][]string, path []string) bool {
 		if refMatches(excluded, fp) {
 			return false
 		}
+		if isSet && setCarriesExcluded(p.Set[f.Name], excluded, fp) {
+			return false // the value set as a whole carries a value at an excluded path
+		}
 		if isPatch && !n.legal(excluded, fp) {
 			return false
 		}
 	}
 	return true
+}
+
+// setCarriesExcluded: the value set at path fp holds a value at an excluded path below it.
+func setCarriesExcluded(v *schema.V, excluded [][]string, fp []string) bool {
+	for _, vp := range valuePaths(v) {
+		if refMatches(excluded, append(append([]string{}, fp...), vp...)) {
+			return true
+		}
+	}
+	return false
+}
+
+// onlySetsExcludedInside: p's only illegality is a set value carrying excluded values; stripped is p with those
+// values pruned from the set values.
+func (p *cPatch) stripSets(excluded [][]string, path []string) *cPatch {
+	c := &cPatch{T: p.T, Set: map[string]*schema.V{}, Delete: append([]string{}, p.Delete...), Nested: map[string]*cPatch{}}
+	for k, v := range p.Set {
+		c.Set[k] = prune(v, excluded, append(append([]string{}, path...), k))
+	}
+	for k, n := range p.Nested {
+		c.Nested[k] = n.stripSets(excluded, append(append([]string{}, path...), k))
+	}
+	return c
 }
 
 func (p *cPatch) empty() bool { return len(p.Set)+len(p.Delete)+len(p.Nested) == 0 }
@@ -756,6 +782,9 @@ func partC11(a *hcli.Args, rep *report.Report, univName string, u *schema.Univer
 						fail(sp, "patch encode-panic", fmt.Sprintf("%s: %v", cs, err), cs)
 					case legal && err != nil:
 						fail(sp, fmt.Sprintf("patch legal-rejected-on-encode spec=%d", si), fmt.Sprintf("%s: %v", cs, err), cs)
+					case !legal && err == nil && illegalKind(p, spec) == "sets-excluded-inside" && sameJSON(out, refPatchJSON(p.stripSets(spec, nil), true)):
+						// not refused, but what was emitted is the patch without the excluded values
+						fail(sp, fmt.Sprintf("patch illegal-stripped-not-refused spec=%d sets-excluded-inside", si), fmt.Sprintf("%s emitted %s", cs, out), cs)
 					case !legal && err == nil:
 						fail(sp, fmt.Sprintf("patch illegal-emitted spec=%d %s", si, illegalKind(p, spec)), fmt.Sprintf("%s emitted %s", cs, out), cs)
 					case legal:
@@ -872,6 +901,8 @@ func illegalKind(p *cPatch, spec [][]string) string {
 			}
 			if (isSet || isDel || isPatch) && refMatches(spec, fp) {
 				kinds["touches-excluded"] = true
+			} else if isSet && setCarriesExcluded(p.Set[f.Name], spec, fp) {
+				kinds["sets-excluded-inside"] = true
 			}
 			if isPatch {
 				walk(n, fp)
